@@ -532,6 +532,8 @@ def rule_fitted(ctx):
             while cnd.get("k") in ("DropTemps", "Paren"):
                 cnd = strip(cnd["e"])
             only_empty = cnd.get("k") == "MethodCall" and cnd["name"] == "is_empty" and peel_refs(cnd["recv"]).get("local") in whole
+            if cnd.get("k") == "Binary" and cnd["op"] == "==" and any(z.get("k") == "MethodCall" and z["name"] in ("nrows", "len", "len_of", "nsamples", "ncols") and peel_refs(z["recv"]).get("local") in whole for z in walk(cnd)) and any(peel_refs(s_).get("k") == "Lit" and str(peel_refs(s_).get("v")).rstrip("usize_") == "0" for s_ in (cnd["l"], cnd["r"])):
+                only_empty = True
             if not only_empty and fn_file(fn).endswith("linear_scaling.rs"):
                 unscaled = (y, cnd)
         if unscaled and not bad:
